@@ -26,6 +26,33 @@ claim("C07", "path automaton with bool-flag constant propagation over clang CFG;
       "Holds for all schedules/would-block placements because it is a statement-order fact. Timing is not decided.",
       TRUST, "DESIGN.md §3 C07")
 
+claim("C13", "statement-order / path automaton over clang CFG; atomic type and memory-order check; who-may-call",
+      "Premises of the queue algorithm on all paths of every instantiation: producer links then signals (atomic exchange, release store), "
+      "consumer drains the eventfd before looking at the queue, consumers loop until the null result, one consumer per queue, tail written "
+      "only by pop. These are the exact ordering facts the lost-wake-up / lost-item arguments rest on; they hold for every interleaving "
+      "because they are program-order facts. The interleaving argument itself is the design's, not the tool's.",
+      TRUST, "DESIGN.md §3 C13")
+claim("C11", "dominance + who-may-call + path automaton + lockset + type-level value-category check",
+      "At-most-once guards of continuations, then() runs-or-remembers, no fulfilment on a rejection path, combinator guards cross-checked "
+      "between All/Any/WhenAllRange, all-of completeness, and stored values handed out as rvalues only to rvalue-reference continuations. "
+      "Decided for every instantiation in the library and the drivers; equality of delivered values is not decided.",
+      TRUST, "DESIGN.md §3 C11")
+claim("C12", "lockset (guarded-access) analysis over clang CFG with verified lock-held preconditions",
+      "Every access to a promise core's continuation list / exception, every state store, construct() and continuation walk is under the "
+      "mutex of that same core; then() and settlement each use one guard scope. This proves the serialisation premise for all schedules; "
+      "exactly-once then follows from the C11 once-guards.",
+      TRUST, "DESIGN.md §3 C12")
+claim("C06", "who-may-call/write + lockset with synchronous-lambda context + per-iteration path automaton",
+      "Single FIFO path to the socket, lock discipline on the pending-write table including references derived from it, deferred consumed "
+      "exactly once per drain iteration, resolve only after the last byte with the full count, re-queue carries the unwritten tail at the "
+      "recorded offset. Does not decide the byte stream for every short-write pattern.",
+      TRUST, "DESIGN.md §3 C06")
+claim("C04", "must-pass-through over CFG regions + mod-set inclusion over the call graph",
+      "Every completion path of the server handler and of the client connection resets the parser; every parser-owned field that parsing may "
+      "write (through every Step::apply override) is re-initialised by the reset that virtual dispatch selects. Full for the reset "
+      "discipline; what the re-initialised value is, is not decided.",
+      TRUST, "DESIGN.md §3 C04")
+
 for pid in ["C01", "C03", "C04", "C05", "C06", "C08", "C09", "C10", "C11", "C12", "C13", "C14", "C15", "C16", "C17", "C18", "C19"]:
     if pid not in CLAIMS:
         na(pid, "static rule set designed in DESIGN.md §3 but its check is not wired in yet (under construction in this session)")
